@@ -32,7 +32,9 @@ check("C16", "fault_enumeration",
       "in later edges, the next template and the system section; the resulting document with that one label masked must equal "
       "the fault-free document and every diagnostic must point at the faulted label. Declarations: 343 lists of three "
       "declarations x fault in the 2nd/3rd x every truncation and token deletion, globally and template-locally: earlier "
-      "declarations present and unchanged.",
+      "declarations present and unchanged. A second model with two dynamic templates: labels quantifying over dynamic "
+      "instances (forall/exists/sum, nested, one binder name over different templates, also in the later labels) under the "
+      "same single-token faults.",
       "Reference = the fault-free document parsed the same way (static analysis iff the faulted parse ran it). The faulted "
       "label's value and document-wide summary flags are masked.",
       "exhaustive fault enumeration (token positions x fault operators, all short token strings) with a differential oracle against the fault-free run",
@@ -72,7 +74,7 @@ check("C01", "model_checking",
       "(quick) / 3 (thorough) plus -O2+libstdc++-assertions build one level deeper, pruned on a state digest taken at the "
       "observation point before end of input; then every single structural/byte fault and truncation of a kitchen-sink XML "
       "document and the repository models (buffer/fd/file), 35 growth families for recursion depth and time "
-      "proportionality (CPU time, re-measured alone), a grid of token lengths around the lexer's 4000-byte limit in 16 position classes, and 1100+ documents with semantically invalid but syntactically clean declarations and labels (the builder's error branches; alone, in pairs, in four slots). Oracle: returns or throws std::exception, no sanitizer/assertion report, process alive, in time.",
+      "proportionality (CPU time, re-measured alone), a grid of token lengths around the lexer's 4000-byte limit in 16 position classes, and 1100+ documents with semantically invalid but syntactically clean declarations and labels (the builder's error branches; alone, in pairs, in four slots), every dynamic-template construct (4 quantifiers over instances x 7 kinds of template operand x 28 body shapes, spawn/exit/numOf x 21 operand shapes, in labels, function bodies and queries) and 55 more searches with a dynamic template in scope. Oracle: returns or throws std::exception, no sanitizer/assertion report, process alive, in time.",
       "No hand model: every transition is an execution of the implementation (traces_validated_against_impl = runs). Pruning "
       "is sound if the digest covers what later callbacks read (DESIGN.md §3/C01); 'shape'-digest runs are heuristic. Bounded: "
       "token strings up to the depth from the listed seeds/alphabets; single (thorough: sampled pairs of) XML faults.",
@@ -142,7 +144,7 @@ check("C07", "exploration",
       "pairwise distinguishable types; every model carries 23 use sites (before/after each declaration, inside/outside each "
       "scope, labels with and without select binder, invariant, another template, system section, a later declaration) and 4 "
       "queries (v, P.v, P.w with argument substitution, T2.v). The declaration each use is bound to is read from the real "
-      "document and compared with a reference lexical resolver; unknown uses must be diagnosed, one diagnostic each. Error-recovery histories: the same use sites after each of 12 erroneous declarations (missing return, unknown names, syntax errors in statements / nested blocks / quantifiers / iterations / parameter lists / initialisers, duplicates) that declare the name in scopes of their own, at three positions; declarations after a syntactically well-formed erroneous one must stay where they were declared.",
+      "document and compared with a reference lexical resolver; unknown uses must be diagnosed, one diagnostic each. Error-recovery histories: the same use sites after each of 12 erroneous declarations (missing return, unknown names, syntax errors in statements / nested blocks / quantifiers / iterations / parameter lists / initialisers, duplicates) that declare the name in scopes of their own, at three positions; declarations after a syntactically well-formed erroneous one must stay where they were declared. Use sites inside types (array sizes, range bounds, 7 positions), statements starting with the name after unbraced constructs, two processes of one template in one query. Members of dynamic instances: 16 subsets of {global, enclosing template, two dynamic templates} x 10 labels (member of the bound instance, bare names in and after the body, nested binders of one name, a binder named like the variable, a failed member lookup followed by a bare name) + 2 SMC queries.",
       "The bound declaration is identified through the upper bound of the symbol's declared range. Parameter+local of the "
       "same name share a frame (duplicate definition) and are excluded.",
       "bounded-exhaustive enumeration of declaration subsets x use sites on the real parser against a reference scope resolver",
@@ -221,10 +223,10 @@ check("C14", "exploration",
 check("C15", "model_checking",
       "Explicit-state search over call histories executed on the real library. State = the process-global lexer/parser/tracker "
       "state (parser statics read through a wrapper TU, flex start condition and buffer stack, UTAP::tracker, errno); "
-      "transition = one more call of a public entry point, executed in a process forked from that state. 31 events (XML by "
+      "transition = one more call of a public entry point, executed in a process forked from that state. 33 events (XML by "
       "buffer/fd, XTA by buffer/FILE*, queries by buffer/FILE*, bare blocks; accepted, diagnosed, throwing XMLReaderError / "
       "XMLDocError / runtime_error / TypeException from inside the grammar, unterminated comments, 3.x syntax, a client builder "
-      "aborting inside a comment / an array declarator / a label). All histories of length <= 2 (quick) / 3 (thorough) from "
+      "aborting inside a comment / an array declarator / a label, literals that leave errno set). All histories of length <= 2 (quick) / 3 (thorough) from "
       "five counter seeds without pruning, then BFS to depth 4 / 6 merging histories that leave identical global state, then "
       "every alignment of the 32-bit position counter relative to 2^31 and 2^32 for every event. Oracle: each call's canonical "
       "result (return value or exception class, diagnostics with path/line/columns as the library renders them, document "
@@ -258,7 +260,11 @@ check("C19", "exploration",
       "included) the real clone_deeper/subst/equal/get_size are run against their laws: clone equal, no shared node, mutation "
       "of either side invisible to the other at every node position, subst = reference substitution for every occurring "
       "symbol and non-mutating, identity substitution, every single-node perturbation (kind, symbol, constant, operand swap) "
-      "detected by equal, get_size() = stored children at every node; equal as a relation over pools (all pairs/triples).",
+      "detected by equal, get_size() = stored children at every node; equal as a relation over pools (all pairs/triples); every "
+      "sequence of up to 3 (thorough: 4) operations from {equal, clone, clone_deeper, subst, operand replacement} over three "
+      "variables for 19 expressions against a reference model of plain trees; the same laws for every quantifier over the "
+      "instances of a dynamic template (forall/exists/sum x template x body x surrounding, all nestings) and numOf/foreach/sum "
+      "in SMC queries.",
       "Node identity / stored children / perturbations go through harness/wrap_expression.cpp (a wrapper TU including "
       "expression.cpp). Small scope as in C02.",
       "bounded-exhaustive enumeration of expressions x node positions x perturbations on the real code (law oracles)",
@@ -269,8 +275,9 @@ check("C20", "exploration",
       "write_XML_file into a memfd, and the bytes are read by an independent XML parser (ElementTree): template count/names, "
       "one location element per location with unique id/name/invariant+rate labels/urgent+committed, exactly one init "
       "resolving to the initial location, one transition per edge in order with end points, controllable attribute and label "
-      "presence; label texts are judged by parsing the written file again and comparing the expression trees. Models with "
-      "branchpoint edges: writing must not crash.",
+      "presence; label texts are judged by parsing the written file again and comparing the expression trees. Branchpoints "
+      "(also in a template that is not the first): one element each with a unique id, and the references of edges through "
+      "them resolve to the right branchpoint.",
       "ElementTree as independent reader; label text equivalence via re-parse by the library (expression trees).",
       "choice-tree DFS with deviation bound on the real parser+writer, independent-reader oracle",
       "DESIGN.md §3/C20")
